@@ -44,7 +44,7 @@ import (
 var childFlag = flag.Bool("c16child", false, "internal: run as decode/compile server (child process)")
 var bFlag = flag.String("c16b", "", "internal: run one part-(b) scenario in this (child) process: fn;machines;val,val,...")
 var dFlag = flag.String("c16d", "", "internal: run one part-(d) scenario in this (child) process")
-var onlyFlag = flag.String("only", "", "only run parts: any of a,b,c,d")
+var onlyFlag = flag.String("only", "", "only run parts: any of a,b,c,d,e")
 
 // ---- cases of part (a) ---------------------------------------------------------------
 
@@ -490,13 +490,13 @@ func main() {
 					hasResult = true
 					ref, isRef := exec.VerifC16RefIndex(dec.Args[k])
 					if !isRef || ref != exec.VerifC16ResultInvIndex(res) {
-						viol("result-ref/param="+registry[c.Fn].In(k).String()+"/"+c.Vals[k].label, "a Result argument does not arrive as a reference to its invocation",
+						viol("result-ref/param="+registry[c.Fn].In(k).String(), "a Result argument does not arrive as a reference to its invocation",
 							fmt.Sprintf("arg %d: got %s", k, describe(dec.Args[k])))
 					}
 					continue
 				}
 				if got := describe(dec.Args[k]); got != b.desc[k] {
-					viol("decoded-arg/param="+registry[c.Fn].In(k).String()+"/"+c.Vals[k].label, "a decoded argument differs from the original",
+					viol("decoded-arg/param="+registry[c.Fn].In(k).String(), "a decoded argument differs from the original",
 						fmt.Sprintf("arg %d: sent %s, decoded %s", k, b.desc[k], got))
 				}
 			}
@@ -664,80 +664,149 @@ func main() {
 		cov["b_runs_that_failed_to_encode"] = nFired
 	}
 
-	// ---------------- (d) ----------------
-	if want("d") {
-		rounds := 4
-		if r.Thorough() {
-			rounds = 16
-		}
+	// ---------------- (d) + (e) ----------------
+	if want("d") || want("e") {
 		type dtask struct {
-			sc    dagScenario
-			round int
+			sc       dagScenario
+			machines int
+			round    int
+			faultK   int // 0: part (d); >0: part (e), the k-th Worker.Compile fails once
 		}
 		var dtasks []dtask
-		for round := 0; round < rounds; round++ {
+		repeat := map[int]int{6: 2, 3: 2, 2: 2, 1: 1} // rounds per cluster size for diamond-like shapes
+		if r.Thorough() {
+			repeat = map[int]int{6: 6, 3: 6, 2: 8, 1: 1}
+		}
+		if want("d") {
 			for _, sc := range dagScenarios {
-				dtasks = append(dtasks, dtask{sc, round})
+				for _, m := range []int{6, 3, 2, 1} {
+					n := 1
+					if sc.diamondLike() {
+						n = repeat[m]
+					}
+					for round := 0; round < n; round++ {
+						dtasks = append(dtasks, dtask{sc, m, round, 0})
+					}
+				}
 			}
 		}
-		var nRuns, nFresh, nFreshMachines, nOK, nSkipped int64
+		if want("e") {
+			maxK := 3
+			if r.Thorough() {
+				maxK = 6
+			}
+			for _, sc := range dagScenarios {
+				if sc.name != "single" && sc.name != "diamond" && !(r.Thorough() && sc.name == "deep") {
+					continue
+				}
+				for _, m := range []int{1, 2} {
+					mk := maxK
+					if sc.name != "single" {
+						mk = 2 * maxK
+						if m == 1 && !r.Thorough() {
+							continue
+						}
+					}
+					for k := 1; k <= mk; k++ {
+						dtasks = append(dtasks, dtask{sc, m, 0, k})
+					}
+				}
+			}
+		}
+		var nRuns, nFresh, nFreshMachines, nOK, nSkipped, nFaultRuns, nFaultFired int64
+		freshByShape := map[string]int{}
+		var fmu sync.Mutex
 		ev.Parallel(len(dtasks), 6, func(i int) {
 			t := dtasks[i]
+			part := "result-dag"
+			if t.faultK > 0 {
+				part = "compile-neterr"
+			}
 			var res dagResult
 			for attempt := 0; attempt < 3; attempt++ {
-				res = runDagChild(t.sc.name)
-				// hangs and set-up failures (producer runs) are re-run: verifsystem's 60 ms
-				// keepalive deadline kills machines on an overloaded host
-				if !res.Hang && res.SetupErr == "" && !strings.Contains(res.ErrText, "too many tries: lost on") {
+				res = runDagChild(t.sc.name, t.machines, t.faultK)
+				// a hang or a failed producer run is re-run before anything is concluded
+				if res.Crash != "" || (!res.Hang && res.SetupErr == "" && !strings.Contains(res.ErrText, "too many tries: lost on")) {
 					break
 				}
 			}
 			atomic.AddInt64(&nRuns, 1)
 			atomic.AddInt64(&evaluations, 1)
-			if res.FreshCompiles > 0 {
+			if t.faultK > 0 {
+				atomic.AddInt64(&nFaultRuns, 1)
+				if res.FaultFired {
+					atomic.AddInt64(&nFaultFired, 1)
+				}
+			} else if res.FreshCompiles > 0 {
 				atomic.AddInt64(&nFresh, 1)
 				atomic.AddInt64(&nFreshMachines, int64(res.FreshCompiles))
+				fmu.Lock()
+				freshByShape[t.sc.name] += res.FreshCompiles
+				fmu.Unlock()
 			}
 			want := t.sc.expectedRows()
-			det := map[string]interface{}{"scenario": t.sc.name, "round": t.round, "err": res.ErrText, "machines_started": res.Machines,
-				"machines_that_compiled_the_join": res.JoinCompiles, "of_which_fresh": res.FreshCompiles, "rows": res.Rows, "want_rows": want, "crash": res.Crash}
+			det := map[string]interface{}{"scenario": t.sc.name, "machines": t.machines, "round": t.round, "fault_on_kth_compile": t.faultK,
+				"fault_fired": res.FaultFired, "err": res.ErrText, "machines_started": res.Machines,
+				"machines_that_compiled_the_last_invocation": res.JoinCompiles, "of_which_fresh": res.FreshCompiles,
+				"rows": res.Rows, "want_rows": want, "crash": res.Crash}
+			cell := fmt.Sprintf("%s round %d on %d machines fault=%d", t.sc.name, t.round, t.machines, t.faultK)
 			switch {
+			case res.Crash != "":
+				outcomes.Add(part + ":driver-crash")
+				col.add(3e6+i, "C16/"+part+"/driver-crash", "running an invocation on the cluster kills the driver process", det)
 			case res.SetupErr != "":
 				atomic.AddInt64(&nSkipped, 1)
-				r.NotExhaustive(fmt.Sprintf("(d) scenario %s round %d skipped, set-up failed: %s", t.sc.name, t.round, res.SetupErr))
-			case res.Crash != "":
-				outcomes.Add("d:driver-crash")
-				col.add(3e6+i, "C16/result-dag/driver-crash/"+t.sc.name, "running an invocation whose Result arguments form a DAG crashes the driver", det)
+				r.NotExhaustive(fmt.Sprintf("(d/e) %s skipped, set-up failed: %s", cell, res.SetupErr))
 			case res.Hang, strings.Contains(res.ErrText, "too many tries: lost on"):
-				// Machines of the test bed die under overload (keepalive deadline); progress
-				// under machine loss is C02's subject. Not judged here.
-				outcomes.Add("d:no-progress(not judged)")
-				atomic.AddInt64(&nSkipped, 1)
-				r.NotExhaustive(fmt.Sprintf("(d) scenario %s round %d: no progress in 3 attempts (machines lost); not judged", t.sc.name, t.round))
+				// Not concluded from a deadline alone: the same cell without the fault must
+				// finish (then the host is not merely slow). Without a fault there is no
+				// control, and progress under machine loss is C02's subject: not judged.
+				judged := false
+				if t.faultK > 0 && res.Hang {
+					ctl := runDagChild(t.sc.name, t.machines, 0)
+					if !ctl.Hang && !ctl.Failed && ctl.SetupErr == "" && ctl.Crash == "" {
+						judged = true
+						det["control_without_fault"] = "completed"
+						outcomes.Add(part + ":hang")
+						col.add(3e6+i, "C16/"+part+"/hang", "after one transient network error on Worker.Compile the Run never returns (3 attempts of 120 s; the same cell without the fault completes)", det)
+					}
+				}
+				if !judged {
+					outcomes.Add(part + ":no-progress(not judged)")
+					atomic.AddInt64(&nSkipped, 1)
+					r.NotExhaustive(fmt.Sprintf("(d/e) %s: no progress in 3 attempts; not judged", cell))
+				}
 			case res.Failed:
 				cls := "other-error"
 				if strings.Contains(res.ErrText, "invalid invocation reference") {
 					cls = "invalid-invocation-reference"
 				}
-				outcomes.Add("d:run-fails/" + cls)
-				col.add(3e6+i, "C16/result-dag/run-fails/"+cls, "Run of an invocation whose Result arguments form a DAG fails on the cluster", det)
+				outcomes.Add(part + ":run-fails/" + cls)
+				col.add(3e6+i, "C16/"+part+"/run-fails/"+cls, "Run of a valid invocation fails on the cluster", det)
 			case strings.Join(res.Rows, ",") != strings.Join(want, ","):
-				outcomes.Add("d:wrong-rows")
-				col.add(3e6+i, "C16/result-dag/wrong-rows/"+t.sc.name, "an invocation whose Result arguments form a DAG yields the wrong rows on the cluster", det)
+				outcomes.Add(part + ":wrong-rows")
+				col.add(3e6+i, "C16/"+part+"/wrong-rows", "a valid invocation yields the wrong rows on the cluster", det)
 			default:
-				outcomes.Add("d:ok")
+				outcomes.Add(part + ":ok")
 				atomic.AddInt64(&nOK, 1)
 			}
 		})
-		if nFresh == 0 {
-			r.NotExhaustive("(d) in no run was the join compiled on a machine that had compiled none of its dependencies")
+		if want("d") && nFresh == 0 {
+			r.NotExhaustive("(d) in no run was the last invocation compiled on a machine that had compiled none of its dependencies")
 		}
-		nontrivial += nFresh
-		cov["d_scenarios"] = len(dagScenarios)
-		cov["d_cluster_runs"] = nRuns
-		cov["d_runs_ok"] = nOK
-		cov["d_runs_with_join_on_fresh_machine"] = nFresh
-		cov["d_fresh_machine_compilations_of_the_join"] = nFreshMachines
+		if want("e") && nFaultFired == 0 {
+			r.NotExhaustive("(e) the injected Worker.Compile fault never fired")
+		}
+		nontrivial += nFresh + nFaultFired
+		cov["d_shapes"] = len(dagScenarios)
+		cov["d_e_cluster_runs"] = nRuns
+		cov["d_e_runs_ok"] = nOK
+		cov["d_runs_with_last_invocation_on_fresh_machine"] = nFresh
+		cov["d_fresh_machine_compilations_of_last_invocation"] = nFreshMachines
+		cov["d_fresh_machine_compilations_by_shape"] = fmt.Sprint(freshByShape)
+		cov["d_repeat_rule"] = fmt.Sprintf("diamond-like shapes: rounds per cluster size %v; every fresh machine that compiles the last invocation is one draw of the executor's map-order-dependent traversal (a wrong order has probability 1/2 per draw for a diamond)", repeat)
+		cov["e_cells_with_compile_fault"] = nFaultRuns
+		cov["e_cells_in_which_the_fault_fired"] = nFaultFired
 	}
 
 	// ---------------- (c) ----------------
@@ -778,7 +847,7 @@ func main() {
 	cov["distinct_nontrivial"] = nontrivial
 	cov["distinct_outcomes"] = outcomes.Distinct()
 	cov["outcomes"] = outcomes.Keys()
-	cov["rule"] = "(a) the cross product of per-type argument domains for 13 registered Funcs (int, string, float64, []int, map, struct, *struct, interface{}, user interface, bigslice.Slice, *exec.Result; zero values, typed/untyped nil, interfaces holding each registered concrete type, results and nested results), x machine combiners off/on: one evaluation per real decode and per worker view (in-process, child process); (b) one evaluation per cluster run of an unencodable argument list (designed kinds + one representative of every class the codec rejected in (a)) x {1,2} machines; (c) one evaluation per ordered pair of lists; (d) one evaluation per end-to-end cluster run of an invocation whose Result arguments form a DAG (7 shapes x rounds), the join placed on freshly started machines. distinct_nontrivial = (d) runs in which the join was compiled on a machine that had compiled none of its dependencies + distinct argument lists (by Func and canonical description) that were transported and verified on a worker + cluster runs in which the encode failure actually occurred + pairs with a non-empty diff"
+	cov["rule"] = "(a) the cross product of per-type argument domains for 19 registered Funcs, including Funcs with repeated parameter types (int, string, float64, []int, map, struct, *struct, interface{}, user interface, bigslice.Slice, *exec.Result; zero values, typed/untyped nil, interfaces holding each registered concrete type, results and nested results), x machine combiners off/on: one evaluation per real decode and per worker view (in-process, child process); (b) one evaluation per cluster run of an unencodable argument list (designed kinds + one representative of every class the codec rejected in (a)) x {1,2} machines; (c) one evaluation per ordered pair of lists; (d) one evaluation per end-to-end cluster run of an invocation whose Result arguments form a DAG (10 shapes x clusters growing to 1,2,3,6 machines x rounds), the last invocation placed on freshly started machines; (e) the same cells with one transient network error on the k-th Worker.Compile RPC. distinct_nontrivial = (d) runs in which the last invocation was compiled on a machine that had compiled none of its dependencies + (e) cells in which the injected fault fired + distinct argument lists (by Func and canonical description) that were transported and verified on a worker + cluster runs in which the encode failure actually occurred + pairs with a non-empty diff"
 	r.Finish(cov)
 }
 
@@ -821,7 +890,7 @@ func checkWorkerReply(cs *caseState, view string, rep Reply, viol func(check, wh
 	}
 	for k := range cs.desc {
 		if rep.ArgDesc[k] != cs.desc[k] {
-			viol("worker-arg/"+view+"/param="+registry[cs.c.Fn].In(k).String()+"/"+cs.c.Vals[k].label, "an argument differs on the worker",
+			viol("worker-arg/"+view+"/param="+registry[cs.c.Fn].In(k).String(), "an argument differs on the worker",
 				fmt.Sprintf("arg %d: driver %s, worker %s", k, cs.desc[k], rep.ArgDesc[k]))
 		}
 	}
@@ -1043,7 +1112,7 @@ func runUnencodable(fn int, vals []val, machines int) (res bResult) {
 	sys.MaxMachines = machines + 3
 	ctr := &rpcCounter{after: 1 << 62}
 	sys.Hook = ctr.hook
-	sess := exec.Start(exec.Bigmachine(sys), exec.Parallelism(2*machines))
+	sess := exec.Start(exec.Bigmachine(calmSys{sys}), exec.Parallelism(2*machines))
 	// The session is deliberately not shut down: after a failed Run the executor can
 	// still have task goroutines in flight, and (*invDiskCache).getOrCreate panics
 	// ("call after close") when one of them arrives after Shutdown.
